@@ -255,7 +255,16 @@ def build(repo=REPO, force=False, canary=None, verify_only=None, quiet=False, ex
             ('assume_specification', r'\bassume_specification\b'), ('axiom', r'\baxiom fn\b'),
             ('assume', r'\bassume\s*\('), ('admit', r'\badmit\s*\('), ('external_derive', r'external_derive'),
             ('uninterp', r'\buninterp spec fn\b')]}
-        r = dict(key=key, cache='miss', gen_path=gpath, verus_cmd=v['cmd'], verus_rc=v['rc'], wall=time.time() - t0,
+        assume_sites = []
+        glines = asm['text'].split('\n')
+        for i, l in enumerate(glines):
+            if re.search(r'\bassume\s*\(', l) and not l.strip().startswith('//'):
+                owner = None
+                for u in asm['units']:
+                    if u.gen_lo and u.gen_lo <= i + 1 <= u.gen_hi: owner = u.path
+                assume_sites.append(dict(unit=owner, text=l.strip()[:200]))
+        trusted_fns = [dict(fn=u.path, reason=u.reason) for u in asm['units'] if u.kind == 'trusted']
+        r = dict(key=key, cache='miss', gen_path=gpath, assume_sites=assume_sites, trusted_fns=trusted_fns, verus_cmd=v['cmd'], verus_rc=v['rc'], wall=time.time() - t0,
                  verus_wall=v['wall'], fails=fails, tool=tool, fstats=fstats, verified=vr.get('verified'),
                  errors=vr.get('errors'), units=units, clauses=unit_clauses(asm), callgraph={k: sorted(x) for k, x in call_graph(asm).items()},
                  stats=asm['stats'], registry=asm['registry'], scan=scan, auto_external=auto_external,
